@@ -20,7 +20,7 @@ Import ListNotations.
 NAN = float('nan')
 INF = float('inf')
 ALPHAS = [0.001, 0.01, 0.05, 0.1, 0.5]
-NDFS = [None, 1, 2, 10, 1000, 10001, 10 ** 6]       # every class of degrees of freedom
+NDFS = [None, 1, 2, 3, 5, 10, 1000, 10001, 10 ** 6]       # every class of degrees of freedom
 BAND = 1e-9
 
 
@@ -105,6 +105,59 @@ def run_impl(case, sets=None):
             return observe(test, res, shape)
     except Exception as exc:  # noqa
         return {'raise': type(exc).__name__}
+
+
+def round_trips(ctx, case, obs):
+    '''state round trips: a copy / deep copy / pickle round trip of the TEST evaluated afterwards, the
+    same round trips of its RESULT read afterwards, and an environment holding the result written
+    with Env.to_file and read back with Env.from_file -- each must read exactly as the direct
+    evaluation (verdict, oracles, p-value decision, t, p, alpha, ndf, threshold)'''
+    import copy
+    import os
+    import pickle
+    from valjean.gavroche.stat_tests.student import TestStudent
+    shape = tuple(case['shape'])
+    tag = f' :: {json.dumps(case)[:600]}'
+    route = 'construction'
+    try:
+        with np.errstate(all='ignore'):
+            test = TestStudent(*make_datasets(case), name='student', alpha=case['alpha'], ndf=case['ndf'])
+            res = test.evaluate()
+            routes = [('copy.copy of the test, then evaluate', lambda: (lambda t: (t, t.evaluate()))(copy.copy(test))),
+                      ('copy.deepcopy of the test, then evaluate',
+                       lambda: (lambda t: (t, t.evaluate()))(copy.deepcopy(test))),
+                      ('pickle round trip of the test, then evaluate',
+                       lambda: (lambda t: (t, t.evaluate()))(pickle.loads(pickle.dumps(test)))),
+                      ('copy.copy of the result', lambda: (lambda r: (r.test, r))(copy.copy(res))),
+                      ('copy.deepcopy of the result', lambda: (lambda r: (r.test, r))(copy.deepcopy(res))),
+                      ('pickle round trip of the result',
+                       lambda: (lambda r: (r.test, r))(pickle.loads(pickle.dumps(res))))]
+
+            def env_route():
+                from valjean.cosette.env import Env
+                path = os.path.join(ctx.wd(), 'c05-env.pickle')
+                Env({'student_task': {'result': [res], 'other': 1}}).to_file(path)
+                back = Env.from_file(path)
+                os.unlink(path)
+                got = back['student_task']['result'][0]
+                return got.test, got
+            routes.append(('Env.to_file / Env.from_file of an environment holding the result', env_route))
+            for route, fun in routes:
+                tst, rsl = fun()
+                got = observe(tst, rsl, shape)
+                if got != obs:
+                    diff = [k for k in obs if obs[k] != got.get(k)]
+                    ctx.oracle_failure(
+                        f'after {route} the comparison reads differently ({diff}: threshold '
+                        f'{unbits(obs["thr"])!r} -> {unbits(got["thr"])!r}, verdict {obs["verdict"]} -> '
+                        f'{got["verdict"]})' + tag, dict(case, route=route), key='state-round-trip')
+                    return
+            if observe(test, res, shape) != obs:
+                ctx.oracle_failure('the original test / result changed during the round trips' + tag, case,
+                                   key='state-round-trip-original')
+    except Exception as exc:  # noqa
+        ctx.oracle_failure(f'state round trip ({route}) raises {type(exc).__name__}' + tag,
+                           dict(case, route=route), key='state-round-trip-raises')
 
 
 def history(ctx, case, obs):
@@ -558,6 +611,22 @@ def special_pair_cases():
     return out
 
 
+def between_cases():
+    '''small ndf: |t| between the normal and the Student critical value (and just around both)'''
+    out = []
+    for ndf in (1, 2, 3, 4, 5, 10):
+        for alpha in (0.01, 0.05, 0.2):
+            znorm = expected_threshold(alpha, None)
+            tcrit = expected_threshold(alpha, ndf)
+            ref_v, ref_e, oth_v, oth_e = [], [], [], []
+            for k, tval in enumerate((znorm * 0.99, znorm * 1.01, (znorm + tcrit) / 2, tcrit * 0.99, tcrit * 1.01)):
+                unit = 2.0 ** (k - 2)
+                a, b = (tval * unit, 0.0) if k % 2 else (0.0, tval * unit)
+                ref_v.append(a), oth_v.append(b), ref_e.append(0.0), oth_e.append(unit)
+            out.append(mk([5], alpha, ndf, (ref_v, ref_e), (oth_v, oth_e)))
+    return out
+
+
 def window_cases():
     '''for every class of ndf: bins just inside and just outside the REFERENCE two-sided critical
     value (relative distance 1e-7 and 1e-4), both signs'''
@@ -692,7 +761,7 @@ def run(ctx):
     ctx.rule = ('corpus (docstring examples, 0/0, NaN/inf patterns, signed zeros) + boundary cases (|t| == critical value exactly and its float neighbours, alpha == p-value of a bin) + random comparisons: scalar to 4-d, '
                 '1..3 compared datasets, differences of 0.5..3 sigma, exact ties 12%, zero errors 10%, NaN/inf 5% '
                 'each in a third of the cases, magnitudes 1e-321..1e160, alpha in {0.001..0.5} or random, ndf in '
-                '{None,1,2,10,1000,10001,1e6} or random in 1e4..1e7, with bins 1e-7 and 1e-4 (relative) inside/outside the reference critical value for every ndf class; every combination of inf/NaN/0/finite errors and values across the two sides; HISTORIES on a third of the cases (the same TestStudent object evaluated, wrapped in Bonferroni/Holm tests that are evaluated in any order, re-evaluated; earlier results re-read); 12% integer-valued data with int64/int32/uint/Python-int dtypes (all-int or mixed with float datasets); 12% datasets masked through Dataset.mask() (none/some/all bins, reference and/or compared); arrays handed over C-/Fortran-ordered, axis-permuted, strided, negatively strided, read-only or broadcast; each case also run swapped, rescaled by 2^k, with grown differences and with '
+                '{None,1,2,10,1000,10001,1e6} or random in 1e4..1e7, with bins 1e-7 and 1e-4 (relative) inside/outside the reference critical value for every ndf class; every combination of inf/NaN/0/finite errors and values across the two sides; STATE ROUND TRIPS on a quarter of the cases and on all small-ndf cases with |t| between the normal and the Student critical value (copy / deepcopy / pickle of the test then evaluate, of the result then read, Env.to_file/from_file of an environment holding the result: all must read as the direct evaluation); HISTORIES on a third of the cases (the same TestStudent object evaluated, wrapped in Bonferroni/Holm tests that are evaluated in any order, re-evaluated; earlier results re-read); 12% integer-valued data with int64/int32/uint/Python-int dtypes (all-int or mixed with float datasets); 12% datasets masked through Dataset.mask() (none/some/all bins, reference and/or compared); arrays handed over C-/Fortran-ordered, axis-permuted, strided, negatively strided, read-only or broadcast; each case also run swapped, rescaled by 2^k, with grown differences and with '
                 'halved errors; non-trivial = passing and failing bins in one case (or a scalar case)')
     cases = corpus()
     ctx.count('corpus', len(cases))
@@ -702,6 +771,10 @@ def run(ctx):
     ncorp = len(cases)
     cases += window_cases()
     ctx.count('critical_window_cases', len(cases) - ncorp)
+    ncorp = len(cases)
+    between = between_cases()
+    ctx.count('between_normal_and_student_cases', len(between))
+    cases = between + cases                      # first in the list: always taken through the round trips
     ncorp = len(cases)
     nrand = 650 if quick else 13000
     cases += boundary_cases(ctx.rng, 60 if quick else 1000)
@@ -725,6 +798,9 @@ def run(ctx):
         if good and (k < 60 or ctx.rng.random() < 0.35):
             history(ctx, case, obs)
             ctx.count('histories')
+        if good and (k < 60 or ctx.rng.random() < 0.25):
+            round_trips(ctx, case, obs)
+            ctx.count('state_round_trips')
         if masked:
             ctx.count('masked_cases')
         if case.get('dtypes'):
